@@ -204,13 +204,17 @@ def decodeClass (em : Emitted) (ms : List (Nat × Nat)) (starts : List (Option N
       let st ← decodeEntries em ms starts (em.vtbls.length + 1) st
       pure (st, acc.2.1 ++ [some vp], acc.2.2 ++ [cell])
 
+/-- the `slots_strides` arrays: `2 * arity - 1` numbers per method, cut from the emitted array -/
+def ssOf (ms : List (Nat × Nat)) (slots : List Nat) : List (List Nat) :=
+  (ms.foldl (fun (acc : List (List Nat) × List Nat) (m : Nat × Nat) =>
+    let n := 2 * m.1 - 1
+    (acc.1 ++ [acc.2.take n], acc.2.drop n)) (([] : List (List Nat)), slots)).1
+
 /-- `decode_dispatch_data`: `cells` gives, per class record in catalog order, the key of its static
     v-table pointer cell (records of one class share a cell and are decoded once) -/
 def decode (em : Emitted) (ms : List (Nat × Nat)) (cells : List Nat) : Except Err Decoded := do
   -- slots and strides
-  let (ss, _) := ms.foldl (fun (acc : List (List Nat) × List Nat) (m : Nat × Nat) =>
-    let n := 2 * m.1 - 1
-    (acc.1 ++ [acc.2.take n], acc.2.drop n)) (([] : List (List Nat)), em.slots)
+  let ss := ssOf ms em.slots
   let (dt, starts) ← decodeDtbls ms em.dtbls
   let (st, vps, _) ← cells.foldlM (decodeClass em ms starts)
     (({ enc := 0, dec := [], last := false } : DecSt), ([] : List (Option Int)), ([] : List Nat))
